@@ -40,6 +40,7 @@ class Contract:
         self.note = g('note', '')
         self.extended = g('extended', False)
         self.total = g('total', False)          # no exception allowed at all
+        self.slice_vars = g('slice_vars')       # mechanical statement slice (see slice_function)
 
 
 def _unwrap(x):
@@ -69,6 +70,10 @@ def loop_invariant(qual, ordinal, havoc):
         LOOPS[(qual, ordinal)] = LoopSpec(fn, havoc)
         return fn
     return deco
+
+
+def all_contracts():
+    return [c for c in REGISTRY.values() if isinstance(c, Contract)]
 
 
 def call_spec(I, fn, values):
@@ -131,6 +136,9 @@ def make_interp(timeout_ms=3000, extended=False):
     src = extract.SourceIndex()
     I = Interp(ex, src, REGISTRY, extended=extended)
     I.loop_specs = LOOPS
+    from . import vecmodel, builtins as _B
+    vecmodel.install(REGISTRY)
+    VSeq.length_hook = lambda s: _B.filtered_length(I, s)
     return I
 
 
@@ -199,11 +207,16 @@ def _explore_function(I, c, tgt, mode, prop, short):
             cenv = Env(outer.__globals__, None, c.nested[0])
             for nm, s in c.closure.items():
                 cenv.vars[nm] = fresh_of_sort(I, s, nm)
-            I.s_FunctionDef(inner, cenv)
-            f = cenv.vars[inner.name]
+            if isinstance(inner, ast.Lambda):
+                f = I.e_Lambda(inner, cenv)
+            else:
+                I.s_FunctionDef(inner, cenv)
+                f = cenv.vars[inner.name]
             f.qual = c.qual
         else:
             f = tgt
+            if c.slice_vars:
+                f = slice_function(I, f, c.slice_vars, list(c.params))
         if c.setup is not None:
             vals = c.setup(I)
         else:
@@ -256,3 +269,45 @@ def load_sidecars(modules):
     import importlib
     for m in modules:
         importlib.import_module(m)
+
+
+def slice_function(I, f, slice_vars, params):
+    """Mechanical statement slice of a large function (DESIGN 2.1 addendum).
+
+    Kept: top-level `if <test over params only>: raise ...` statements and top-level
+    assignments `v = <expr over params / earlier slice vars>` for v in slice_vars; then
+    `return (v1, ..., vn)`.  Everything else is dropped; the slice is refused (Unsupported)
+    if a kept assignment is not top-level/unconditional or reads anything else."""
+    import copy
+    node = f.node
+    allowed = set(params)
+    body = []
+    seen = []
+    for st in node.body:
+        if isinstance(st, ast.If) and len(st.body) == 1 and isinstance(st.body[0], ast.Raise) and not st.orelse:
+            names = {n.id for n in ast.walk(st.test) if isinstance(n, ast.Name)}
+            if names <= allowed:
+                body.append(st)
+            continue
+        if isinstance(st, ast.Assign) and len(st.targets) == 1 and isinstance(st.targets[0], ast.Name) \
+                and st.targets[0].id in slice_vars:
+            names = {n.id for n in ast.walk(st.value) if isinstance(n, ast.Name)}
+            if not names <= allowed | set(seen):
+                raise Unsupported(f'slice variable {st.targets[0].id} reads {sorted(names - allowed)}')
+            body.append(st)
+            seen.append(st.targets[0].id)
+    # any other assignment to a slice variable (nested, conditional, augmented) defeats the slice
+    count = 0
+    for n in ast.walk(node):
+        if isinstance(n, ast.Name) and isinstance(n.ctx, ast.Store) and n.id in slice_vars:
+            count += 1
+    if count != len(seen) or sorted(seen) != sorted(slice_vars):
+        raise Unsupported(f'slice variables {slice_vars} are not assigned exactly once at top level')
+    ret = ast.Return(value=ast.Tuple(elts=[ast.Name(id=v, ctx=ast.Load()) for v in slice_vars], ctx=ast.Load()))
+    new = copy.copy(node)
+    new.body = body + [ret]
+    new.args = ast.arguments(posonlyargs=[], args=[ast.arg(arg=p) for p in params], vararg=None,
+                             kwonlyargs=[], kw_defaults=[], kwarg=None, defaults=[])
+    ast.fix_missing_locations(new)
+    g = VFunc('def', node=new, globs=f.globs, pyfunc=None, defaults=[], kw_defaults=[], closure_env=None, name=f.name, qual=f.qual)
+    return g
